@@ -156,6 +156,11 @@ def check(ctx, run):
         run.undecided('R15.2', SEL + 'select', 'table', 'method not found (anchor lost)')
     # ---- R15.3 offsets and entry words
     buffers.r17_5(ctx, run, rule='R15.3')
+    # positions written inside the output buffer by the selector writers are relative to the buffer length at the call (batch use)
+    ba = buffers.BufferAnalysis(ctx)
+    for e_ in ('functions::get_by_path', 'functions::get_by_path_first', 'functions::get_by_path_array', SEL + 'select'):
+        ba.analyse_entry(e_)
+    buffers.r17_2(ctx, run, ba, rule='R15.3/R17.2', floor=None)
     b = f.bodies.get(SEL + 'build_scalar_array')
     if b is not None:
         loops = natural_loops(b)
